@@ -36,6 +36,7 @@ EXTENDS Naturals, FiniteSets, TLC
 CONSTANTS
     Callers,     \* set of client goroutines (model values)
     MaxOps,      \* calls per client goroutine
+    LateOps,     \* additional calls a client may make once a Close has returned
     Ops,         \* operations a client may choose from
     Engine,      \* "disk" (scorch with persister+merger), "mem" (scorch, introducer only), "ud" (upsidedown: no loops)
     MaxMerges,   \* how many merge plans may find work (file merges)
@@ -143,7 +144,8 @@ Ret(c, r, phaseAfter) ==
     /\ cancelled' = [cancelled EXCEPT ![c] = FALSE]
 
 Begin(c, o) ==
-    /\ pc[c] = "idle" /\ nops[c] < MaxOps /\ o \in Ops
+    /\ pc[c] = "idle" /\ o \in Ops
+    /\ nops[c] < MaxOps \/ (closeRet /\ nops[c] < MaxOps + LateOps)
     /\ (o = "close") => (HazClose2 \/ ~closeBegun)
     /\ (o = "forcemerge") => (HasLoops \/ (Engine = "mem" /\ HazFMMem))
     /\ op' = [op EXCEPT ![c] = o] /\ pb' = [pb EXCEPT ![c] = Phase]
@@ -287,6 +289,12 @@ ClUnlock(c) ==   \* defer i.mutex.Unlock(); return
     /\ writer' = None /\ closeRet' = TRUE /\ Ret(c, "ok", 2)
     /\ UNCHANGED <<rd, wpend, open, closed, closeBegun, bvars, rvars, ivars, pvars, mvars, fvars>>
 
+\* (merger bookkeeping after a successful planMergeAtSnapshot; used by the merger and by the
+\*  introducer action that completes the merge rendezvous)
+AfterOK(cm, snap) ==    \* if ctrlMsg.doneCh != nil { close(doneCh) }; ctrlMsg = nil; lastEpochMergePlanned = snapshot epoch
+    /\ fmDone' = IF cm \in Callers THEN fmDone \cup {cm} ELSE fmDone
+    /\ ctrl' = None /\ lastPlanned' = snap /\ mSnap' = 0 /\ mpc' = "n_send"
+
 \* ------------------------------------------------------------ introducerLoop
 (* after every non-close arm: close(w.notifyCh) for watchers with w.epoch < root.epoch *)
 PWAfterPass(state, ep) == IF state = "listed" /\ pWep < ep THEN "notified" ELSE state
@@ -316,7 +324,7 @@ IBatch(c) ==
 \* introducePersist: new root, close(persist.applied)
 IPersist ==
     /\ ipc = "sel" /\ ppc = "pi_send"
-    /\ ppc' = "pi_wait"
+    /\ ppc' = "finish"     \* `<-persist.applied` returns at once: introducePersist closed it in this very step
     /\ epoch' = epoch + 1 /\ unp' = unp - pUnp
     /\ pW' = PWAfterPass(pW, epoch + 1)
     /\ UNCHANGED <<cvars, lvars, clvars, bvars, ivars, lastPers, pSnap, pUnp, lastMerged, pWep, iSlot, mvars, fvars>>
@@ -335,11 +343,11 @@ IMergeFromPersister ==
     /\ epoch' = epoch + 1 /\ unp' = unp - pUnp
     /\ UNCHANGED <<cvars, lvars, clvars, bvars, lastPers, pSnap, pUnp, lastMerged, pW, pWep, iSlot, mvars, fvars>>
 \* nextMerge.notifyCh <- &mergeTaskIntroStatus{...}  (rendezvous with `<-sm.notifyCh`)
-IMergeNotifyMerger ==
+IMergeNotifyMerger ==     \* ... and the merger's bookkeeping after a successful plan (local, fused)
     /\ ipc = "mnotify" /\ imTo = "merg" /\ mpc = "wait_n"
-    /\ mpc' = "after_ok" /\ ipc' = "sel" /\ imTo' = None
+    /\ AfterOK(ctrl, mSnap) /\ ipc' = "sel" /\ imTo' = None
     /\ pW' = PWAfterPass(pW, epoch)
-    /\ UNCHANGED <<cvars, lvars, clvars, bvars, rvars, ppc, lastPers, pSnap, pUnp, lastMerged, pWep, iSlot, ctrl, lastPlanned, mSnap, nMerges, mW, mWep, pSlot, pSlotEp, fvars>>
+    /\ UNCHANGED <<cvars, lvars, clvars, bvars, rvars, ppc, lastPers, pSnap, pUnp, lastMerged, pWep, iSlot, nMerges, mW, mWep, pSlot, pSlotEp, fmSlot, fmInProg>>
 IMergeNotifyPersister ==
     /\ ipc = "mnotify" /\ imTo = "pers" /\ ppc = "mm_wait"
     /\ ppc' = "finish" /\ ipc' = "sel" /\ imTo' = None
@@ -428,11 +436,6 @@ PSendClosed ==
     /\ ppc' = "done" /\ pSnap' = 0 /\ pUnp' = 0
     /\ UNCHANGED <<cvars, lvars, clvars, applied, rootPers, rvars, ivars, lastPers, lastMerged, pW, pWep, iSlot, mvars, fvars>>
 
-\* <-persist.applied  (closed by introducePersist before the introducer selects again)
-PAppliedWait ==
-    /\ ppc = "pi_wait" /\ ppc' = "finish"
-    /\ UNCHANGED <<cvars, lvars, clvars, bvars, rvars, ivars, lastPers, pSnap, pUnp, lastMerged, pW, pWep, iSlot, mvars, fvars>>
-
 \* bolt commit; close(ourPersisted...); close(persistWatchers...); lastPersistedEpoch = epoch;
 \* `changed` => continue OUTER
 PFinish ==
@@ -466,7 +469,7 @@ PWaitWatcher ==
     /\ UNCHANGED <<cvars, lvars, clvars, bvars, rvars, ivars, lastPers, pSnap, pUnp, pWep, mpc, ctrl, lastPlanned, mSnap, nMerges, mWep, fvars>>
 
 PersStep == PTopClosed \/ PTopWatcher \/ PTopDefault \/ PNapCloseOrTimeout \/ PNapWatcher
-            \/ PSlowClosed \/ PSlowWatcher \/ PTake \/ PSendClosed \/ PAppliedWait \/ PFinish
+            \/ PSlowClosed \/ PSlowWatcher \/ PTake \/ PSendClosed \/ PFinish
             \/ PNotifyClosed \/ PNotifySend \/ PWaitClosed \/ PWaitNotified \/ PWaitWatcher
 
 \* --------------------------------------------------------------- mergerLoop
@@ -478,29 +481,30 @@ AbandonMW == /\ mW' = "none"
 MTopClosed ==
     /\ mpc = "top" /\ closed /\ mpc' = "done"
     /\ UNCHANGED <<cvars, lvars, clvars, bvars, rvars, ivars, pvars, ctrl, lastPlanned, mSnap, nMerges, mW, mWep, pSlot, pSlotEp, fvars>>
-MTopTake ==
-    /\ mpc = "top" /\ ~closed
-    /\ mSnap' = epoch
-    /\ LET cm == IF ctrl = None /\ epoch # lastPlanned THEN "dflt" ELSE ctrl IN
-       /\ ctrl' = cm
-       /\ mpc' = IF cm # None THEN "plan" ELSE "n_send"
-    /\ UNCHANGED <<cvars, lvars, clvars, bvars, rvars, ivars, pvars, lastPlanned, nMerges, mW, mWep, pSlot, pSlotEp, fvars>>
-
-\* planMergeAtSnapshot: the planner finds nothing (return nil) or some tasks
-MPlanNothing ==
-    /\ mpc = "plan" /\ mpc' = "after_ok"
+\* default arm: take the root; `if ctrlMsg == nil && epoch != lastEpochMergePlanned { ctrlMsg = dflt }`;
+\* planMergeAtSnapshot finds nothing (returns nil at once) or finds tasks (MTopWork).
+\* Planning and the bookkeeping after it are local to the merger and fused into this step.
+CtrlAtTop == IF ctrl = None /\ epoch # lastPlanned THEN "dflt" ELSE ctrl
+MTopIdle ==
+    /\ mpc = "top" /\ ~closed /\ CtrlAtTop = None
+    /\ mpc' = "n_send"
     /\ UNCHANGED <<cvars, lvars, clvars, bvars, rvars, ivars, pvars, ctrl, lastPlanned, mSnap, nMerges, mW, mWep, pSlot, pSlotEp, fvars>>
-MPlanWork ==
-    /\ mpc = "plan" /\ nMerges < MaxMerges
-    /\ nMerges' = nMerges + 1 /\ mpc' = "work"
-    /\ UNCHANGED <<cvars, lvars, clvars, bvars, rvars, ivars, pvars, ctrl, lastPlanned, mSnap, mW, mWep, pSlot, pSlotEp, fvars>>
+MTopNothing ==
+    /\ mpc = "top" /\ ~closed /\ CtrlAtTop # None
+    /\ AfterOK(CtrlAtTop, epoch)
+    /\ UNCHANGED <<cvars, lvars, clvars, bvars, rvars, ivars, pvars, nMerges, mW, mWep, pSlot, pSlotEp, fmSlot, fmInProg>>
+MTopWork ==
+    /\ mpc = "top" /\ ~closed /\ CtrlAtTop # None /\ nMerges < MaxMerges
+    /\ ctrl' = CtrlAtTop /\ mSnap' = epoch /\ nMerges' = nMerges + 1 /\ mpc' = "work"
+    /\ UNCHANGED <<cvars, lvars, clvars, bvars, rvars, ivars, pvars, lastPlanned, mW, mWep, pSlot, pSlotEp, fvars>>
 
 \* after a planMergeAtSnapshot error == segment.ErrClosed:
 \*   ForceMerge request: close(doneCh); ctrlMsg = nil; continue OUTER      else: break OUTER
 MErrClosed ==
-    IF ctrl \in Callers
-      THEN /\ fmDone' = fmDone \cup {ctrl} /\ mpc' = "top"
-      ELSE /\ fmDone' = fmDone /\ mpc' = "done"
+    /\ IF ctrl \in Callers
+         THEN /\ fmDone' = fmDone \cup {ctrl} /\ mpc' = "top"
+         ELSE /\ fmDone' = fmDone /\ mpc' = "done"
+    /\ ctrl' = None /\ mSnap' = 0
 
 \* segPlugin.MergeUsing(..., cw.cancelCh, ...): cancelCh is closed by closeCh or by the request's ctx
 MWorkDone ==
@@ -508,21 +512,14 @@ MWorkDone ==
     /\ UNCHANGED <<cvars, lvars, clvars, bvars, rvars, ivars, pvars, ctrl, lastPlanned, mSnap, nMerges, mW, mWep, pSlot, pSlotEp, fvars>>
 MWorkCancelled ==
     /\ mpc = "work" /\ (closed \/ (ctrl \in Callers /\ cancelled[ctrl]))
-    /\ MErrClosed /\ ctrl' = None
-    /\ UNCHANGED <<cvars, lvars, clvars, bvars, rvars, ivars, pvars, lastPlanned, mSnap, nMerges, mW, mWep, pSlot, pSlotEp, fmSlot, fmInProg>>
+    /\ MErrClosed
+    /\ UNCHANGED <<cvars, lvars, clvars, bvars, rvars, ivars, pvars, lastPlanned, nMerges, mW, mWep, pSlot, pSlotEp, fmSlot, fmInProg>>
 
 \* select { case <-s.closeCh: return ErrClosed; case s.merges <- sm: }
 MSendClosed ==
     /\ mpc = "send" /\ closed
-    /\ MErrClosed /\ ctrl' = None
-    /\ UNCHANGED <<cvars, lvars, clvars, bvars, rvars, ivars, pvars, lastPlanned, mSnap, nMerges, mW, mWep, pSlot, pSlotEp, fmSlot, fmInProg>>
-
-\* success: if ctrlMsg.doneCh != nil { close(doneCh) }; ctrlMsg = nil; lastEpochMergePlanned = ourSnapshot.epoch
-MAfterOK ==
-    /\ mpc = "after_ok"
-    /\ fmDone' = IF ctrl \in Callers THEN fmDone \cup {ctrl} ELSE fmDone
-    /\ ctrl' = None /\ lastPlanned' = mSnap /\ mpc' = "n_send"
-    /\ UNCHANGED <<cvars, lvars, clvars, bvars, rvars, ivars, pvars, mSnap, nMerges, mW, mWep, pSlot, pSlotEp, fmSlot, fmInProg>>
+    /\ MErrClosed
+    /\ UNCHANGED <<cvars, lvars, clvars, bvars, rvars, ivars, pvars, lastPlanned, nMerges, mW, mWep, pSlot, pSlotEp, fmSlot, fmInProg>>
 
 \* select { case <-s.closeCh: break OUTER; case s.persisterNotifier <- ew: ; case ctrlMsg = <-s.forceMergeRequestCh: continue OUTER }
 MNotifyClosed ==
@@ -550,8 +547,8 @@ MWaitForce ==
     /\ ctrl' = fmSlot /\ fmSlot' = None /\ mpc' = "top" /\ AbandonMW
     /\ UNCHANGED <<cvars, lvars, clvars, bvars, rvars, ivars, pvars, lastPlanned, mSnap, nMerges, mWep, fmDone, fmInProg>>
 
-MergStep == MTopClosed \/ MTopTake \/ MPlanNothing \/ MPlanWork \/ MWorkDone \/ MWorkCancelled
-            \/ MSendClosed \/ MAfterOK \/ MNotifyClosed \/ MNotifySend \/ MNotifyForce
+MergStep == MTopClosed \/ MTopIdle \/ MTopNothing \/ MTopWork \/ MWorkDone \/ MWorkCancelled
+            \/ MSendClosed \/ MNotifyClosed \/ MNotifySend \/ MNotifyForce
             \/ MWaitClosed \/ MWaitNotified \/ MWaitForce
 
 \* ------------------------------------------------------------------- system
@@ -564,9 +561,10 @@ CallerStep(c) ==    \* steps of a call in progress (not the decision to call, no
 
 ClientChoice(c) == (\E o \in Ops : Begin(c, o)) \/ Cancel(c) \/ FDNestedCall(c)
 
-\* every client has made all its calls: the only legitimate end of a behaviour
-Finished == \A c \in Callers : pc[c] = "idle" /\ nops[c] = MaxOps
-Stutter  == Finished /\ UNCHANGED vars
+\* no call in progress: clients need not call anything more, so the system may rest here.
+\* Every other reachable state must have a successor (TLC's deadlock check).
+Quiet   == \A c \in Callers : pc[c] = "idle"
+Stutter == Quiet /\ UNCHANGED vars
 
 Next == \/ \E c \in Callers : CallerStep(c) \/ ClientChoice(c)
         \/ IntroStep \/ PersStep \/ MergStep
@@ -587,7 +585,7 @@ TypeOK ==
                            "cp_run", "fd_held", "fd_held2", "fdn_rl", "fdn_ru", "st", "fm_check", "fm_send",
                            "fm_wait", "cl_req", "cl_acq", "cl_sig", "cl_wait", "cl_unlock", "panic"}]
     /\ op \in [Callers -> Ops \cup {"none"}]
-    /\ pb \in [Callers -> 0..2] /\ nops \in [Callers -> 0..MaxOps]
+    /\ pb \in [Callers -> 0..2] /\ nops \in [Callers -> 0..(MaxOps + LateOps)]
     /\ cancelled \in [Callers -> BOOLEAN] /\ rd \in [Callers -> 0..2] /\ viol \in BOOLEAN
     /\ writer \in Callers \cup {None} /\ wpend \subseteq Callers /\ open \in BOOLEAN
     /\ closed \in BOOLEAN /\ closeBegun \in BOOLEAN /\ closeRet \in BOOLEAN
@@ -595,11 +593,11 @@ TypeOK ==
     /\ rootPers \subseteq Callers /\ ourPers \subseteq Callers
     /\ epoch \in Nat /\ unp \in Nat
     /\ ipc \in {"sel", "mnotify", "done", "absent"} /\ imTo \in {None, "merg", "pers"}
-    /\ ppc \in {"top", "nap", "slow", "take", "mm_send", "mm_wait", "pi_send", "pi_wait", "finish",
+    /\ ppc \in {"top", "nap", "slow", "take", "mm_send", "mm_wait", "pi_send", "finish",
                 "n_send", "wait", "done", "absent"}
     /\ lastPers \in Nat /\ pSnap \in Nat /\ pUnp \in Nat /\ lastMerged \in Nat
     /\ pW \in States /\ pWep \in Nat /\ iSlot \in Slots
-    /\ mpc \in {"top", "plan", "work", "send", "wait_n", "after_ok", "n_send", "wait", "done", "absent"}
+    /\ mpc \in {"top", "work", "send", "wait_n", "n_send", "wait", "done", "absent"}
     /\ ctrl \in Callers \cup {None, "dflt"} /\ lastPlanned \in Nat /\ mSnap \in Nat /\ nMerges \in 0..MaxMerges
     /\ mW \in States /\ mWep \in Nat /\ pSlot \in Slots /\ pSlotEp \in Nat
     /\ fmSlot \in Callers \cup {None} /\ fmDone \subseteq Callers /\ fmInProg \in Nat
@@ -643,8 +641,8 @@ CancelledSearchReturns ==
 (* The view maps dead epoch variables to 0 and shifts the live ones so     *)
 (* that the smallest is 1: a bisimulation quotient, not an abstraction.    *)
 (***************************************************************************)
-PSnapLive == ppc \in {"mm_send", "mm_wait", "pi_send", "pi_wait", "finish"}
-MSnapLive == mpc \in {"plan", "work", "send", "wait_n", "after_ok"}
+PSnapLive == ppc \in {"mm_send", "mm_wait", "pi_send", "finish"}
+MSnapLive == mpc \in {"work", "send", "wait_n"}
 PWLive    == pW \in {"slot", "listed"}
 MWLive    == mW \in {"slot", "listed"}
 SlowLive  == PauseMode = "slow"
